@@ -8,6 +8,7 @@ import Marwood.Proofs.C07
 import Marwood.Proofs.C03
 import Marwood.Lemmas.MachineGarbage
 import Marwood.Lemmas.PolicyAllocBound
+import Marwood.Lemmas.PolicySessionOk
 /-!
 # C12 — memory is bounded by live data: garbage of every kind is reclaimed
 
@@ -42,6 +43,14 @@ kind discipline).
          instructions allocate at most `8192 · 3 + E`, `E` = what the builtins called allocate) and
          `machine_slice_capacity_bounded` (T12.3 with that `A`); law assumed of the unmodelled operations:
          `ExtAllocOnly`.
+* **C12's first sentence for the concrete machine, session level** (`Lemmas/PolicySession*.lean`): `cgc_is_gcPoint`
+         (a collection of the machine is the policy's `gcPoint` with `live` = the number of cells reachable from the
+         machine roots), `runLoop_is_paced`, `runEval_is_paced`, `runHistory_is_session` (every execution of the run loop,
+         of an evaluation with its epilogues, of a whole history of evaluations consists of blocks of at most 8192
+         instructions each closed by a collection), `session_is_heap_run` (a session is ONE `HRun`),
+         `session_capacity_bounded_machine` (capacity ≤ max(initial, g(L + 8192·3 + E)) at every moment of every session),
+         `eval_collection_points_ok`, `history_capacity_bounded_machine` (side conditions at the collection points
+         discharged from the invariant of the state each evaluation starts in).
 -/
 namespace Marwood.Proofs.C12
 open Marwood Marwood.Heap Marwood.Spec
@@ -681,5 +690,279 @@ example := instr_alloc_bound_core allocExt_allocOnly (s := sCons) (op := .cons) 
   ⟨by decide, by decide, fun _ h => by cases h⟩
 
 end allocbound
+
+/-! ## C12's first sentence for the concrete machine: a whole session is one paced run
+
+"The memory the VM uses is bounded by a function of the live data of the program, not of the work done." For the
+modelled machine: `runLoop` (run.rs `run_count`) runs `run_gc` before instruction 8192, 16384, … of a `run_count`
+call, at a budget stop, and at the end of both epilogues. Hence (`Lemmas/PolicySession.lean`, generic in the
+machine; `Lemmas/PolicySessionMain.lean`) every execution — of the loop, of an evaluation, of a history of
+evaluations — is a *session*: blocks of at most 8192 instructions, each closed by a collection `cgc force`. A
+collection acts on `(capacity, used)` as `HeapPolicy.gcPoint force live` with `live` = the number of cells reachable
+from the machine roots (`cgc_is_gcPoint`), a block as at most `8192 · 3 + E` operations `alloc` (`slice_alloc_bound`),
+so a session is ONE run `HRun` of the heap model (`session_is_heap_run`) and T12.3 applies to it:
+the capacity never exceeds `max(initial, g(L + 8192·3 + E))`, `g(x) = grownSize chunk (4·x) ≤ 6·x + chunk`, where
+`L` bounds the cells reachable from the roots at the collection points and `E` the cells allocated in one block by
+the unmodelled operations (generic builtins, `eval`'s compiler, VPUSH; rest-argument lists) — the two
+program-dependent parameters. The number of instructions, evaluations and collections does not occur. -/
+
+section session
+open Marwood.Vm Marwood.Vm.Concrete Marwood.Lemmas.Sim Marwood.Lemmas.Good Marwood.Lemmas.PolicyAlloc
+open Marwood.Lemmas.MachineGarbage Marwood.Lemmas.PolicySession
+open Marwood.Lemmas.PolicySessionGc Marwood.Lemmas.PolicySessionMain Marwood.Lemmas.PolicySessionOk
+open Marwood.Proofs.C07 (Job runHistory)
+
+/-- **a collection of the concrete machine is a collection point of the policy specification.** In a state
+    satisfying `GcOk` (invariant `GoodI`, decoding discipline `CodePlain`, at most `2^62` cells afterwards),
+    `cgc force s` acts on `(chunk, capacity, used)` as `gcPoint force live` with `live = liveCount s`, the number of
+    cells reachable from `rootsOf s` through semantic references; the allocator invariant holds afterwards; and in
+    the vocabulary of `HRun` it is one step `.gcPoint force (liveCount s)` -/
+theorem cgc_is_gcPoint {force : Bool} {s : St CHeap} (ok : GcOk force s) :
+    proj (toHeap (cgc force s).heap) = HeapPolicy.gcPoint force (liveCount s) (proj (toHeap s.heap)) ∧
+    HInv (cgc force s).heap ∧
+    ∀ (ops : List HeapPolicy.Op) (hf : Heap), HRun true (toHeap (cgc force s).heap) ops hf →
+      HRun true (toHeap s.heap) (.gcPoint force (liveCount s) :: ops) hf :=
+  Marwood.Lemmas.PolicySessionGc.cgc_is_gcPoint ok
+
+/-- `liveCount` counts cells of the heap: it never exceeds the capacity -/
+theorem liveCount_le_capacity (s : St CHeap) : liveCount s ≤ s.heap.cells.size := liveCount_le_size s
+
+/-- **the run loop is paced** — for every machine, from the definition of `runLoop` alone: closed blocks of at most
+    8192 instructions, each followed by `gc`, then what `Tail` says about the result (paused: nothing open;
+    done / error: an open block of fewer than 8192 instructions before the halting / failing one) -/
+theorem runLoop_blocks_generic {S E : Type} (m : Machine S E) (count : Option Nat) (fuel : Nat) (s : S) :
+    ∃ bs s1, Blocks m s bs s1 ∧ (∀ b ∈ bs, b.1 ≤ 8192) ∧ Tail m s1 (runLoop m count fuel 0 s) :=
+  runLoop_blocks_start m count fuel s
+
+/-- **`runLoop` of the concrete machine is paced** (any budget, any fuel, any value of the cycle counter) -/
+theorem runLoop_is_paced (ext : ExtOps) (force : Bool) (count : Option Nat) (fuel c : Nat) (s : St CHeap) :
+    ∃ cps s1, Sess ext force s cps s1 ∧ (∀ cp ∈ cps, cp.1 ≤ 8192) ∧ (∀ cp ∈ cps, CpFrom ext force s cp.2.2) ∧
+      Reaches (machine ext force) s s1 ∧ OpenTail ext force s1 (runLoop (machine ext force) count fuel c s) :=
+  Marwood.Lemmas.PolicySessionMain.runLoop_is_paced ext force count fuel c s
+
+/-- **one evaluation (`run_count` with its epilogues) is a session** whose blocks have at most 8192 instructions;
+    the collection points lie at reachable states or at the epilogue of one (`CpFrom`) -/
+theorem runEval_is_paced (ext : ExtOps) (force : Bool) (count : Option Nat) (fuel : Nat) (s : St CHeap) :
+    match runEval (concreteOps ext) (cgc force) count fuel s with
+    | .value s' => ∃ cps, Sess ext force s cps s' ∧ (∀ cp ∈ cps, cp.1 ≤ 8192) ∧ ∀ cp ∈ cps, CpFrom ext force s cp.2.2
+    | .failed _ s' => ∃ cps, Sess ext force s cps s' ∧ (∀ cp ∈ cps, cp.1 ≤ 8192) ∧ ∀ cp ∈ cps, CpFrom ext force s cp.2.2
+    | .paused s' => ∃ cps, Sess ext force s cps s' ∧ (∀ cp ∈ cps, cp.1 ≤ 8192) ∧ ∀ cp ∈ cps, CpFrom ext force s cp.2.2
+    | .fuel => True :=
+  Marwood.Lemmas.PolicySessionMain.runEval_is_paced ext force count fuel s
+
+/-- **a whole history of evaluations (C07's `runHistory`: successes and failures in any order) is ONE session** -/
+theorem runHistory_is_session (ext : ExtOps) (force : Bool) : ∀ (js : List Job) (s : St CHeap),
+    ∃ cps, Sess ext force s cps (runHistory (concreteOps ext) (cgc force) js s) ∧ ∀ cp ∈ cps, cp.1 ≤ 8192 := by
+  intro js
+  induction js with
+  | nil => intro s; exact ⟨[], .nil s, by simp⟩
+  | cons j js ih =>
+    intro s
+    have hp := runEval_is_paced ext force none j.fuel (prepare s j.entry)
+    simp only [runHistory]
+    have key : ∀ s', (∃ cps, Sess ext force (prepare s j.entry) cps s' ∧ (∀ cp ∈ cps, cp.1 ≤ 8192) ∧
+        ∀ cp ∈ cps, CpFrom ext force (prepare s j.entry) cp.2.2) →
+        ∃ cps, Sess ext force s cps (runHistory (concreteOps ext) (cgc force) js s') ∧ ∀ cp ∈ cps, cp.1 ≤ 8192 := by
+      intro s' ⟨cps1, hs1, hn1, _⟩
+      obtain ⟨cps2, hs2, hn2⟩ := ih s'
+      refine ⟨cps1 ++ cps2, .edit (s1 := prepare s j.entry) rfl (hs1.append hs2), ?_⟩
+      intro cp hcp
+      rcases List.mem_append.mp hcp with h | h
+      · exact hn1 cp h
+      · exact hn2 cp h
+    split <;> rename_i hr <;> rw [hr] at hp
+    · exact key _ hp
+    · exact key _ hp
+    · exact key _ hp
+    · exact ih s
+
+/-- **a session is ONE run of the heap model**: block by block `jᵢ ≤ 3·nᵢ + Eᵢ` operations `alloc`, then
+    `gcPoint force (liveCount cpᵢ)` -/
+theorem session_is_heap_run {ext : ExtOps} {force : Bool} (ea : ExtAllocOnly ext) {s s' : St CHeap} {cps : List CP}
+    (hs : Sess ext force s cps s') (inv : HInv s.heap) (ok : ∀ cp ∈ cps, GcOk force cp.2.2) :
+    HInv s'.heap ∧ ∃ ps : List (Nat × Bool × Nat), All2 (BlockOf force) ps cps ∧
+      ∀ (ops : List HeapPolicy.Op) (hf : Heap), HRun true (toHeap s'.heap) ops hf →
+        HRun true (toHeap s.heap) (blocksOps ps ++ ops) hf :=
+  sess_hrun ea hs inv ok
+
+/-- **C12, first sentence, for every session of the concrete machine.** Let a session (closed blocks `cps`, then an
+    open block of `n` instructions) start in a state with the allocator invariant, right after a collection point
+    (`used ≤ L`, or less than ¾ in use). If every block has at most 8192 instructions (true of every execution of the
+    run loop: `runLoop_is_paced`, `runEval_is_paced`, `runHistory_is_session`), the unmodelled operations called in
+    any one block allocate at most `E` cells, and at every collection point at most `L` cells are reachable from the
+    roots, then the heap has at most `bound chunk initial (8192·3 + E) L = max(initial, grownSize chunk (max (L+A) (4A)
+    (4L/3)))` cells, `A = 8192·3 + E`; in closed form at most `max(initial, 6·(L + 8192·3 + E) + chunk)` — a function of
+    `L` and `E` only: not of the number of blocks, instructions, evaluations or collections. -/
+theorem session_capacity_bounded_machine {ext : ExtOps} {force : Bool} (ea : ExtAllocOnly ext) {s0 s1 s' : St CHeap}
+    {cps : List CP} {n Et E L : Nat} (hs : Sess ext force s0 cps s1) (tail : Seg ext n Et s1 s')
+    (inv : HInv s0.heap) (ok : ∀ cp ∈ cps, GcOk force cp.2.2)
+    (hn : ∀ cp ∈ cps, cp.1 ≤ 8192) (hE : ∀ cp ∈ cps, cp.2.1 ≤ E) (hL : ∀ cp ∈ cps, liveCount cp.2.2 ≤ L)
+    (hnt : n ≤ 8192) (hEt : Et ≤ E)
+    (hu : used s0.heap ≤ L ∨ 4 * used s0.heap < 3 * s0.heap.cells.size) :
+    s'.heap.cells.size ≤ HeapPolicy.bound s0.heap.chunk s0.heap.cells.size (8192 * 3 + E) L ∧
+    s'.heap.cells.size ≤ max s0.heap.cells.size (6 * (L + (8192 * 3 + E)) + s0.heap.chunk) := by
+  have h := sess_capacity_bounded ea hs tail inv ok hn hE hL hnt hEt hu
+  exact ⟨h, Nat.le_trans h (bound_le _ _ _ _)⟩
+
+/-- `CodePlain` after an uninterrupted evaluation -/
+theorem codePlain_runEval {ext : ExtOps} (force : Bool) (ecp : ExtCodePlain ext) (fuel : Nat) {s : St CHeap}
+    (cp : CodePlain s.heap) :
+    match runEval (concreteOps ext) (cgc force) none fuel s with
+    | .value s' => CodePlain s'.heap
+    | .failed _ s' => CodePlain s'.heap
+    | .paused _ => False
+    | .fuel => True := by
+  have em : (⟨vmStep (concreteOps ext), cgc force⟩ : Machine (St CHeap) Fault) = machine ext force := rfl
+  obtain ⟨h1, h2⟩ := C07.runLoop_reaches ext force none fuel 0 s
+  unfold runEval
+  rw [em]
+  cases hr : runLoop (machine ext force) none fuel 0 s with
+  | paused s' => exact absurd hr (C07.runLoop_none_not_paused (concreteOps ext) (cgc force) fuel 0 s s')
+  | fuel => trivial
+  | done sd =>
+    simp only
+    exact codePlain_gc force (s := onDone sd) (codePlain_reaches force ecp cp sd (h2 sd hr))
+  | error f sf =>
+    simp only
+    exact codePlain_gc force (s := onError sf) (codePlain_reaches force ecp cp sf (h1 f sf hr))
+
+/-- **the side conditions at the collection points of one evaluation are consequences** of the bundled invariant
+    `VmOkP` and `CodePlain` of the state it starts in, the laws of the unmodelled parts, and the physical size bound -/
+theorem eval_collection_points_ok {ext : ExtOps} {ecl : ExtCodeLawsV ext} (force : Bool) (el : ExtLaws ext)
+    (eg : ExtGood ext) (ep : ExtProc ext) (ecp : ExtCodePlain ext) {s0 : St CHeap} (h0 : VmOkP ext ecl s0)
+    (cp0 : CodePlain s0.heap) (sb : EvalSizeBounded ext force s0) {x : St CHeap} (hx : CpFrom ext force s0 x) :
+    GcOk force x :=
+  gcOk_of_cpFrom force el eg ep ecp h0 cp0 sb hx
+
+/-- every evaluation of the history starts — after `prepare_eval` pointed `ip` at its entry code — in a state
+    satisfying the bundled invariant, and the heaps it produces have at most `2^62` cells -/
+def JobsOk (ext : ExtOps) (ecl : ExtCodeLawsV ext) (force : Bool) : List Job → St CHeap → Prop
+  | [], _ => True
+  | j :: js, s => (VmOkP ext ecl (prepare s j.entry) ∧ EvalSizeBounded ext force (prepare s j.entry)) ∧
+    match runEval (concreteOps ext) (cgc force) none j.fuel (prepare s j.entry) with
+    | .value s' => JobsOk ext ecl force js s'
+    | .failed _ s' => JobsOk ext ecl force js s'
+    | .paused s' => JobsOk ext ecl force js s'
+    | .fuel => JobsOk ext ecl force js s
+
+/-- a history is a session all of whose collection points satisfy `GcOk` -/
+theorem runHistory_session_ok {ext : ExtOps} {ecl : ExtCodeLawsV ext} (force : Bool) (el : ExtLaws ext)
+    (eg : ExtGood ext) (ep : ExtProc ext) (ecp : ExtCodePlain ext) : ∀ (js : List Job) (s : St CHeap),
+    CodePlain s.heap → JobsOk ext ecl force js s →
+    ∃ cps, Sess ext force s cps (runHistory (concreteOps ext) (cgc force) js s) ∧ (∀ cp ∈ cps, cp.1 ≤ 8192) ∧
+      ∀ cp ∈ cps, GcOk force cp.2.2 := by
+  intro js
+  induction js with
+  | nil => intro s _ _; exact ⟨[], .nil s, by simp, by simp⟩
+  | cons j js ih =>
+    intro s cp jobs
+    obtain ⟨⟨hv, hsb⟩, hrest⟩ := jobs
+    have hp := runEval_is_paced ext force none j.fuel (prepare s j.entry)
+    have hc := codePlain_runEval force ecp j.fuel (s := prepare s j.entry) cp
+    simp only [runHistory]
+    have key : ∀ s', CodePlain s'.heap → JobsOk ext ecl force js s' →
+        (∃ cps, Sess ext force (prepare s j.entry) cps s' ∧ (∀ cp ∈ cps, cp.1 ≤ 8192) ∧
+          ∀ cp ∈ cps, CpFrom ext force (prepare s j.entry) cp.2.2) →
+        ∃ cps, Sess ext force s cps (runHistory (concreteOps ext) (cgc force) js s') ∧ (∀ cp ∈ cps, cp.1 ≤ 8192) ∧
+          ∀ cp ∈ cps, GcOk force cp.2.2 := by
+      intro s' cp' jobs' ⟨cps1, hs1, hn1, hf1⟩
+      obtain ⟨cps2, hs2, hn2, hok2⟩ := ih s' cp' jobs'
+      refine ⟨cps1 ++ cps2, .edit (s1 := prepare s j.entry) rfl (hs1.append hs2), ?_, ?_⟩
+      · intro c hcp
+        rcases List.mem_append.mp hcp with h | h
+        · exact hn1 c h
+        · exact hn2 c h
+      · intro c hcp
+        rcases List.mem_append.mp hcp with h | h
+        · exact gcOk_of_cpFrom force el eg ep ecp hv cp hsb (hf1 c h)
+        · exact hok2 c h
+    split <;> rename_i hr <;> rw [hr] at hp hc hrest
+    · exact key _ hc hrest hp
+    · exact key _ hc hrest hp
+    · exact absurd hc id
+    · exact ih s cp hrest
+
+/-- **C12, first sentence, for every history of evaluations of the concrete machine** (any number of evaluations,
+    succeeding or failing, each of any length): there is a decomposition of the history into blocks of at most 8192
+    instructions closed by collections such that, whenever `E` bounds the cells the unmodelled operations allocate
+    in one block and `L` the cells reachable from the roots at the collection points, the heap of the final state
+    has at most `max(initial, 6·(L + 8192·3 + E) + chunk)` cells.
+    Hypotheses: the laws of the unmodelled parts (`ExtLaws`, `ExtGood`, `ExtProc`, `ExtCodePlain`, `ExtAllocOnly`),
+    `HInv` and `CodePlain` of the initial heap, and `JobsOk`. -/
+theorem history_capacity_bounded_machine {ext : ExtOps} {ecl : ExtCodeLawsV ext} (force : Bool) (el : ExtLaws ext)
+    (eg : ExtGood ext) (ep : ExtProc ext) (ecp : ExtCodePlain ext) (ea : ExtAllocOnly ext) (js : List Job)
+    (s0 : St CHeap) (inv : HInv s0.heap) (cp0 : CodePlain s0.heap) (jobs : JobsOk ext ecl force js s0) :
+    ∃ cps, Sess ext force s0 cps (runHistory (concreteOps ext) (cgc force) js s0) ∧ (∀ cp ∈ cps, cp.1 ≤ 8192) ∧
+      ∀ E L : Nat, (∀ cp ∈ cps, cp.2.1 ≤ E ∧ liveCount cp.2.2 ≤ L) →
+        (used s0.heap ≤ L ∨ 4 * used s0.heap < 3 * s0.heap.cells.size) →
+        (runHistory (concreteOps ext) (cgc force) js s0).heap.cells.size ≤
+          max s0.heap.cells.size (6 * (L + (8192 * 3 + E)) + s0.heap.chunk) := by
+  obtain ⟨cps, hs, hn, hok⟩ := runHistory_session_ok force el eg ep ecp js s0 cp0 jobs
+  refine ⟨cps, hs, hn, ?_⟩
+  intro E L hEL hu
+  exact (session_capacity_bounded_machine ea hs (Seg.refl ext _) inv hok hn (fun c h => (hEL c h).1)
+    (fun c h => (hEL c h).2) (by omega) (Nat.zero_le _) hu).2
+
+/-! ### non-vacuity: the HALT demo program, evaluated twice -/
+
+open Marwood.Lemmas.Good.Demo Marwood.Proofs.C13
+
+/-- on the demo heap (1 of 4 cells in use) the utilisation-tested collector skips, whatever the roots -/
+theorem hHalt_cgc (s : St CHeap) (hs : s.heap = hHalt) : cgc false s = s := by
+  unfold cgc
+  have : Heap.runGc true false (toHeap s.heap) (rootsOf s) = .ok (.skipped eHalt) := by
+    rw [hs, toHeap_hHalt]; rfl
+  rw [this]
+
+theorem sHalt_evalSizeBounded : EvalSizeBounded failingExt false (sHalt 0) := by
+  refine ⟨sHalt_sizeBounded _, ?_, ?_⟩
+  · intro sd hr
+    have hh : sd.heap = hHalt := by rcases sHalt_reaches failingExt hr with h | h <;> subst h <;> rfl
+    rw [hHalt_cgc (onDone sd) hh]
+    show 2 * sd.heap.cells.size ≤ 2 ^ 63
+    rw [hh]; decide
+  · intro sd hr
+    have hh : sd.heap = hHalt := by rcases sHalt_reaches failingExt hr with h | h <;> subst h <;> rfl
+    rw [hHalt_cgc (onError sd) hh]
+    show 2 * sd.heap.cells.size ≤ 2 ^ 63
+    rw [hh]; decide
+
+theorem demo_eval : runEval (concreteOps failingExt) (cgc false) none 5 (sHalt 0) = .value (sHalt 1) := by
+  have em : (⟨vmStep (concreteOps failingExt), cgc false⟩ : Machine (St CHeap) Fault) = machine failingExt false := rfl
+  unfold runEval
+  rw [em]
+  have : runLoop (machine failingExt false) none 5 0 (sHalt 0) = .done (sHalt 1) := by
+    simp only [runLoop]
+    simp [sHalt_step0 failingExt false]
+  rw [this]
+  show EvalRes.value (cgc false (onDone (sHalt 1))) = _
+  rw [hHalt_cgc _ rfl]
+  rfl
+
+theorem demo_jobsOk : JobsOk failingExt failingExt_codeLawsV false [⟨0, 5⟩, ⟨0, 5⟩] (sHalt 0) := by
+  have hp0 : prepare (sHalt 0) 0 = sHalt 0 := rfl
+  have hp1 : prepare (sHalt 1) 0 = sHalt 0 := rfl
+  simp only [JobsOk, hp0, hp1, demo_eval]
+  exact ⟨⟨sHalt_vmOkP _ _, sHalt_evalSizeBounded⟩, ⟨sHalt_vmOkP _ _, sHalt_evalSizeBounded⟩, trivial⟩
+
+/-- every hypothesis of `history_capacity_bounded_machine` holds for the two-evaluation history of the demo
+    program; its collection points see at most 4 reachable cells and no builtin allocates -/
+example : ∃ cps, Sess failingExt false (sHalt 0) cps
+      (runHistory (concreteOps failingExt) (cgc false) [⟨0, 5⟩, ⟨0, 5⟩] (sHalt 0)) ∧ (∀ cp ∈ cps, cp.1 ≤ 8192) ∧
+    ∀ E L : Nat, (∀ cp ∈ cps, cp.2.1 ≤ E ∧ liveCount cp.2.2 ≤ L) →
+      (used (sHalt 0).heap ≤ L ∨ 4 * used (sHalt 0).heap < 3 * (sHalt 0).heap.cells.size) →
+      (runHistory (concreteOps failingExt) (cgc false) [⟨0, 5⟩, ⟨0, 5⟩] (sHalt 0)).heap.cells.size ≤
+        max (sHalt 0).heap.cells.size (6 * (L + (8192 * 3 + E)) + (sHalt 0).heap.chunk) :=
+  history_capacity_bounded_machine (ecl := failingExt_codeLawsV) false failingExt_laws failingExt_good failingExt_proc
+    failingExt_codePlain failingExt_allocOnly _ _ (HInv.of_wf (sHalt_goodI 0).hg.wf) (sHalt_codePlain 0) demo_jobsOk
+
+/-- `GcOk` holds of the demo state, and its collection is the policy's `gcPoint` with `live ≤ 4` -/
+example : GcOk false (sHalt 0) ∧ liveCount (sHalt 0) ≤ 4 ∧
+    proj (toHeap (cgc false (sHalt 0)).heap) =
+      HeapPolicy.gcPoint false (liveCount (sHalt 0)) (proj (toHeap (sHalt 0).heap)) := by
+  have ok : GcOk false (sHalt 0) := ⟨sHalt_goodI 0, sHalt_codePlain 0, by rw [hHalt_cgc _ rfl]; exact sHalt_small 0⟩
+  exact ⟨ok, liveCount_le_size _, (cgc_is_gcPoint ok).1⟩
+
+end session
 
 end Marwood.Proofs.C12
